@@ -22,6 +22,10 @@ MANIFEST = dict(
          "(harness/c19_acktracker.cpp); generator coverage bounds what the tie sees.",
     technique="Lean 4 proof (invariant/refinement over ACK histories) + model/impl correspondence + spec oracle",
     design="DESIGN.md §6 C19")
+MANIFEST["note"] += (" Constants and limits of the C++ source that the model restates (translator/gen_limits.py -> Gen/Limits.lean: "
+                     "compiled probe + preprocessed function bodies at named anchors) are tied to the model's numerals by the "
+                     "theorems of lean/TinsModel/Props/Limits/C19.lean (audit: Audit/LimitsC19.lean); tools/LIMITS-INVENTORY.md lists "
+                     "what is tied and what is not.")
 
 M32 = 2**32
 HALF = 2**31
